@@ -289,7 +289,11 @@ def run(sh):
     sh.counters["corpus_items_in_domain"] = len(items)
     sh.counters["corpus_items_excluded_from_domain"] = len([1 for it in corpus.items() if it["kind"] == "test" and it["input"] in excl_inputs])
     mine = [it for i, it in enumerate(items) if i % sh.nshards == sh.shard]
+    rng.shuffle(mine)     # a different part of the corpus first for every seed when the time share runs out
     for i in range(0, len(mine), 16):
+        if sh.past(0.6):
+            sh.count("corpus_items_skipped_time", len(mine) - i)
+            break
         run_cases(sh, [(it["input"], it["spec"].get("syntax") or "scss", it["file"] + "::" + it["name"]) for it in mine[i:i + 16]])
     n = 0
     while not sh.expired():
